@@ -178,7 +178,8 @@ func (c *Ctx) layoutSchema() string {
 		return freshDefOther
 	}
 	p := ps[c.R.Intn(len(ps))]
-	l := schema.Layout{Indent: []string{"    ", "\t", "  ", ""}[c.R.Intn(4)], CRLF: c.R.Chance(1, 4), OneLine: c.R.Chance(1, 4), Comments: true, Block: c.R.Bool()}
+	l := schema.Layout{Indent: []string{"    ", "\t", "  ", ""}[c.R.Intn(4)], CRLF: c.R.Chance(1, 4), OneLine: c.R.Chance(1, 4), Comments: true, Block: c.R.Bool(),
+		Trailing: []int{0, 0, 1, 2}[c.R.Intn(4)], SameLine: c.R.Chance(1, 4)}
 	return p.Schema.PrintLayout(l)
 }
 
